@@ -10,6 +10,7 @@ from ..script import Case, gen_bytes
 from ..shadow import decode_out
 
 BIG = sessions.BIGBUF
+MAXN = 2**64 - 1
 
 
 def alphabet(n, setvals):
@@ -43,7 +44,7 @@ class CheckC05(core.Check):
         quick = self.tier == "quick"
         L = 3 if quick else 4
         configs = [("ChaChaPoly", "D")] if quick else [(c, b) for c in CIPHERS for b in ("D", "R")]
-        alpha_n = len(alphabet(3, [0, 1, 2, 3]))
+        alpha_n = len(alphabet(3, [0, 1, 2, 3, MAXN]))
         for ci, be in configs:
             for d in (0, 1):
                 for ln in range(1, L + 1):
@@ -66,12 +67,12 @@ class CheckC05(core.Check):
         w, r = ("A", "B") if d == 0 else ("B", "A")
         if spec.startswith("x:"):
             n = 3
-            al = alphabet(3, [0, 1, 2, 3])
+            al = alphabet(3, [0, 1, 2, 3, MAXN])
             sched = [al[int(i)] for i in spec[2:].split(",")]
         else:
             rnd = random.Random(int(spec[2:]))
             n = rnd.randrange(2, 9)
-            al = alphabet(n, list(range(n + 1)) + [2**32, 2**64 - 2])
+            al = alphabet(n, list(range(n + 1)) + [2**32, 2**64 - 2, MAXN])
             ln = rnd.randrange(4, 41)
             # bias towards in-order delivery so that deep counters are reached
             sched = []
@@ -129,7 +130,7 @@ class CheckC05(core.Check):
                 rn = v
             else:
                 r.stats["deliveries_judged"] += 1
-                should = kind == "d" and v == rn
+                should = kind == "d" and v == rn and rn != MAXN
                 if should:
                     if not e.ok:
                         r.viol("C05|next-rejected|%s" % e.errkind(), "%s/%s dir %d: message %d is the next expected one (rn=%d) but was rejected with %s; schedule %s" % (ci, be, d, v, rn, e.res, spec))
